@@ -14,4 +14,5 @@ PROPERTY = {
 
 
 def check(run):
-    run.verify_functions(RECOGNIZER)
+    run.verify_functions(RECOGNIZER + [
+        'yatiml/loader.py::Loader.__process_node'])
